@@ -1,9 +1,9 @@
-CONSTANTS K = 2
+CONSTANTS K = 3
 TYS = {"Z"}
 PHS = {0,1,4}
 ETS = {"H"}
-NB = 2
-VARS = {0,1}
+NB = 1
+VARS = {0}
 BB = FALSE
 INIT Init
 NEXT Next
